@@ -11,7 +11,7 @@ from vt.pyvc.termvc import Arr, lift, uf
 
 R = z3.RealSort()
 B = z3.BoolSort()
-TOQITO_RET = {"pretty_good_measurement": (Arr, Arr, Arr), "state_distinguishability": (R, Arr), "state_exclusion": (R, Arr), "is_positive_semidefinite": B, "is_hermitian": B, "is_identity": B, "is_herm_preserving": B, "is_completely_positive": B, "is_trace_preserving": B, "kraus_to_choi": Arr, "completely_bounded_trace_norm": R, "dual_channel": Arr, "trace_norm": R, "fidelity": R, "partial_transpose": Arr, "to_density_matrix": Arr, "is_ppt": z3.BoolSort(), "hilbert_schmidt_inner_product": R, "partial_trace": Arr, "purity": R, "calculate_vector_matrix_dimension": R, "vectors_to_gram_matrix": Arr}
+TOQITO_RET = {"pretty_good_measurement": (Arr, Arr, Arr), "state_distinguishability": (R, Arr), "state_exclusion": (R, Arr), "is_positive_semidefinite": B, "is_hermitian": B, "is_identity": B, "is_herm_preserving": B, "is_completely_positive": B, "is_trace_preserving": B, "kraus_to_choi": Arr, "completely_bounded_trace_norm": R, "dual_channel": Arr, "trace_norm": R, "fidelity": R, "partial_transpose": Arr, "to_density_matrix": Arr, "is_ppt": z3.BoolSort(), "hilbert_schmidt_inner_product": R, "partial_trace": Arr, "purity": R, "calculate_vector_matrix_dimension": R, "vectors_to_gram_matrix": Arr, "symmetric_projection": Arr}
 
 
 def pred(text, env):
